@@ -14,7 +14,7 @@ import math, warnings
 import numpy as np
 
 PROP = 'C08'
-GENERATED = ['PhaseOrder']
+GENERATED = ['PhaseOrder', 'LoopFacts']
 DRIVER = 'Drivers/C08.lean'
 DRIVER_MODULES = ['StarsimModel.Model.Loop', 'StarsimModel.Model.Proto']
 RULE = ('module sets: 0-2 probe modules per container kind (demographics, networks, diseases, connectors, interventions '
